@@ -127,6 +127,21 @@ def gen_field(rnd, k):
                 validators.append("url")
                 expected.append(("url", None, None))
                 feats.add("url")
+        elif r < 0.55:
+            # both format validators on one field, each with or without a message of its own
+            pair = []
+            for v_ in ("email", "url"):
+                if rnd.random() < 0.4:
+                    msg = rand_message(rnd)
+                    pair.append(('%s(message = "%s")' % (v_, msg), (v_, None, rust_unescape(msg))))
+                else:
+                    pair.append((v_, (v_, None, None)))
+            if rnd.random() < 0.5:
+                pair.reverse()
+            for (text_, exp_) in pair:
+                validators.append(text_)
+                expected.append(exp_)
+            feats.add("email+url" + ("-messages" if any(e_[1][2] is not None for e_ in pair) else ""))
     if not validators:
         return name, ty, [], [], {"no-validator"}
     # validators of the validator crate that the statement does not translate, mixed in before / between / after the translated ones:
@@ -299,6 +314,9 @@ def run_case(a):
                     viol.append(("C11 constraint-on-nested-position", "%s.%s (%s %s): %d constraint call(s) below the top-level chain" % (sname, key, ty, attrs, nested), None))
                 if same(exp, gs):
                     continue
+                if any(f.startswith("email+url") for f in feats) and shared_slot_model(exp, gs):
+                    viol.append(("C11 email-and-url-share-one-message-slot", "%s.%s: `%s` %s declares %s but the schema carries %s" % (sname, key, ty, " ".join(attrs), exp, gs), None))
+                    continue
                 viol.append((classify(exp, gs, feats, ty), "%s.%s: `%s` %s declares %s but the schema carries %s" % (sname, key, ty, " ".join(attrs), exp, gs), None))
         r = {"viol": [(s, w) for (s, w, _) in viol], "n": nfields, "feats": sorted(feats_seen)}
         if viol:
@@ -306,6 +324,17 @@ def run_case(a):
         return r
     finally:
         g.cleanup()
+
+
+def shared_slot_model(exp, got):
+    """recorded defect: ValidatorAttributes has ONE message slot (custom_message) for email and url together, so with both validators
+    on a field either's message is printed on both. True iff `got` is exactly `exp` with that substitution"""
+    msgs = {m for (k, _v, m) in exp if k in ("email", "url") and m is not None}
+    for m in msgs:
+        model = sorted([(k, v, m if k in ("email", "url") else mm) for (k, v, mm) in exp], key=repr)
+        if same(model, got):
+            return True
+    return False
 
 
 def same(exp, got):
